@@ -75,7 +75,7 @@ Judge(e) ==
                          v.vid = resps[r].vid /\ v.parent = reqs[r].arg >>
       >>
       bad == {checks[i][1] : i \in {j \in DOMAIN checks : ~checks[j][2]}}
-  IN /\ (bad # {} => PrintT(<<"VIOL", l, e.run, e.i, bad>>))
+  IN /\ (\A n_ \in bad : PrintT(<<"VIOL", l, e.run, e.i, n_>>))
      /\ nviol' = nviol + (IF bad = {} THEN 0 ELSE 1)
 
 Init == l = 1 /\ nviol = 0
